@@ -15,6 +15,7 @@ package core
 import (
 	"context"
 	"errors"
+	"reflect"
 	"strings"
 
 	. "github.com/Comcast/sheens/match"
@@ -169,6 +170,17 @@ func (a *FuncAction) Exec(ctx context.Context, bs Bindings, props StepProps) (*E
 		// turn into an acceptance).
 		for p, v := range permanent {
 			exe.Bs[p] = v
+		}
+	} else if Exp_PermanentBindings {
+		// No bindings were returned: the action failed or the
+		// guard declined.  Code that works on the map it was
+		// given (as native code may) can have removed or
+		// replaced permanent bindings there before that.  Put
+		// those back: that map is what the caller goes on with.
+		for p, v := range permanent {
+			if cur, have := bs[p]; !have || !reflect.DeepEqual(cur, v) {
+				bs[p] = v
+			}
 		}
 	}
 
